@@ -10,7 +10,10 @@ import (
 	"io"
 	"os"
 	"path/filepath"
+	"regexp"
+	"strconv"
 	"strings"
+	"sync"
 	"testing"
 	"time"
 	"unicode/utf8"
@@ -204,4 +207,119 @@ func TestVerif_C37_Replay(t *testing.T) {
 		fo["dest"] = "file"
 		out.Emit(fo)
 	})
+}
+
+var vf37Tag = regexp.MustCompile(`^c([0-9]+):`)
+
+// concurrent stage: G goroutines log their records through ONE real Logger (structured, stdout = a pipe,
+// file) at overlapping moments. Every output line is measured like in the sequential stage, together with
+// the number of the submitted record its message names ("c<number>:" prefix; 0 = none).
+func TestVerif_C37_Conc(t *testing.T) {
+	path := os.Getenv("VERIF_CASES2")
+	if path == "" {
+		t.Skip("VERIF_CASES2 not set: this test is driven by /verif/check")
+	}
+	out := verifrt.NewOutFile(t, os.Getenv("VERIF_OUT2"))
+	defer out.Close()
+
+	type rec struct {
+		ID    int    `json:"id"`
+		G     int    `json:"g"`
+		Bytes []int  `json:"bytes"`
+		Lvl   string `json:"lvl"`
+		Sec   int64  `json:"sec"`
+		Nano  int64  `json:"nano"`
+	}
+	byG := map[int][]rec{}
+	var fixed time.Time
+	verifrt.ForEachCaseFile(t, path, func(raw []byte) {
+		var c rec
+		verifrt.Decode(t, raw, &c)
+		byG[c.G] = append(byG[c.G], c)
+		fixed = time.Unix(c.Sec, c.Nano).UTC() // the same instant for every record of the stage
+	})
+	levels := map[string]Level{"debug": Debug, "info": Info, "warn": Warn, "error": Error}
+
+	file := filepath.Join(t.TempDir(), "conc.json")
+	pr, pw, err := os.Pipe()
+	if err != nil {
+		t.Fatal(err)
+	}
+	var piped []byte
+	readDone := make(chan struct{})
+	go func() {
+		piped, _ = io.ReadAll(pr)
+		close(readDone)
+	}()
+	l := &Logger{
+		Level:        Debug,
+		Destinations: []Destination{DestinationStdout, DestinationFile},
+		Structured:   true,
+		File:         file,
+		timeNow:      func() time.Time { return fixed },
+		stdout:       pw,
+	}
+	if err = l.Initialize(); err != nil {
+		t.Fatal(err)
+	}
+
+	start := make(chan struct{})
+	var wg sync.WaitGroup
+	for _, recs := range byG {
+		wg.Add(1)
+		go func(recs []rec) {
+			defer wg.Done()
+			<-start
+			for _, c := range recs {
+				mb := make([]byte, len(c.Bytes))
+				for i, v := range c.Bytes {
+					mb[i] = byte(v)
+				}
+				l.Log(levels[c.Lvl], "%s", string(mb))
+			}
+		}(recs)
+	}
+	close(start)
+	wg.Wait()
+	l.Close()
+	pw.Close()
+	<-readDone
+	pr.Close()
+	fb, err := os.ReadFile(file)
+	if err != nil {
+		t.Fatal(err)
+	}
+
+	for _, d := range []struct {
+		name string
+		b    []byte
+	}{{"stdout", piped}, {"file", fb}} {
+		rest := d.b
+		n := 0
+		for len(rest) > 0 {
+			i := bytes.IndexByte(rest, '\n')
+			var line []byte
+			if i < 0 {
+				line, rest = rest, nil // trailing fragment without line feed
+			} else {
+				line, rest = rest[:i+1], rest[i+1:]
+			}
+			n++
+			m := vf37Measure(line)
+			claimed := 0
+			if m["msgIsStr"] == true {
+				var sb strings.Builder
+				for _, cp := range m["msg"].([]int) {
+					sb.WriteRune(rune(cp))
+				}
+				if mm := vf37Tag.FindStringSubmatch(sb.String()); mm != nil {
+					claimed, _ = strconv.Atoi(mm[1])
+				}
+			}
+			m["dest"] = d.name
+			m["lineNo"] = n
+			m["claimed"] = claimed
+			out.Emit(m)
+		}
+	}
 }
